@@ -18,6 +18,9 @@ type c13Params struct {
 	deep         int
 	uclass       int
 	lrrec        int
+	placement    int
+	big          []int // sizes of the big inputs
+	manyerrs     int
 	gen          int
 	genFree      int
 	mut          int
@@ -29,9 +32,9 @@ type c13Params struct {
 
 func c13Tier(tier string) c13Params {
 	if tier == "thorough" {
-		return c13Params{repoFlagSets: 12, deep: 90, uclass: 400, lrrec: 200, gen: 5000, genFree: 2500, mut: 9000, bytes: 2500, faultsPer: 6, sessionLen: 32, realBinary: 60}
+		return c13Params{repoFlagSets: 12, deep: 90, uclass: 400, lrrec: 200, placement: 4 * placementCount, big: []int{70 << 10, 300 << 10, 1<<20 + 4096}, manyerrs: 80, gen: 5000, genFree: 2500, mut: 9000, bytes: 2500, faultsPer: 6, sessionLen: 32, realBinary: 60}
 	}
-	return c13Params{repoFlagSets: 1, deep: 12, uclass: 16, lrrec: 10, gen: 70, genFree: 40, mut: 170, bytes: 30, faultsPer: 4, sessionLen: 24, realBinary: 12}
+	return c13Params{repoFlagSets: 1, deep: 12, uclass: 16, lrrec: 10, placement: placementCount, big: []int{70 << 10}, manyerrs: 8, gen: 70, genFree: 40, mut: 170, bytes: 30, faultsPer: 4, sessionLen: 24, realBinary: 12}
 }
 
 func c13Inputs(seed uint64, p c13Params, src string) []toolInput {
@@ -63,6 +66,10 @@ func c13Inputs(seed uint64, p c13Params, src string) []toolInput {
 			in.Flags = drawFlags(r, src.Rules, false)
 		}
 		ins = append(ins, in)
+	}
+	for i := 0; i < p.mut/8; i++ {
+		// the same texts with carriage returns before the line feeds
+		ins = append(ins, crlfVariant(r, ins[r.intn(base)]))
 	}
 	for i := 0; i < p.deep; i++ {
 		in := genDeepGrammar(r)
@@ -105,6 +112,15 @@ func c13Inputs(seed uint64, p c13Params, src string) []toolInput {
 	}
 	for _, h := range shortHeads {
 		ins = append(ins, toolInput{Name: "head", Class: "bytes", Grammar: []byte(h), Flags: drawFlags(r, nil, false)})
+	}
+	for i := 0; i < p.placement; i++ {
+		ins = append(ins, genPlacement(r, i))
+	}
+	for i := 0; i < p.manyerrs; i++ {
+		ins = append(ins, genManyErrors(r, []int{3, 40, 120, 130, 300, 1100}[i%6]))
+	}
+	for _, size := range p.big {
+		ins = append(ins, genBig(r, size, false), genBig(r, size, true))
 	}
 	for i := 0; i < p.lrrec; i++ {
 		in := genLRRecoveryN(r, i)
